@@ -25,6 +25,25 @@ def base_statements(seed, n_templates):
     return out
 
 
+def gram_statements(seed, n, starts=('select', 'select', 'union', 'insert', 'update', 'delete', 'create_table'), dialect='mindsdb'):
+    """Deterministic list of ('gram:<start>', text): sentences derived from the grammar of the tree under test, starting at a
+    statement non-terminal, kept when the parser accepts them (shapes no template author thought of)."""
+    from vf.gen.gramgen import GramGen
+    from mindsdb_sql import parse_sql
+    g = GramGen(monitors.parser_classes()[dialect], monitors.lexer_classes()[dialect])
+    out = []
+    for j in range(n):
+        r = core.rng_for(seed, 'parsework', 'gram-stmt', j)
+        st = starts[j % len(starts)]
+        try:
+            t = g.sentence(r, max_depth=r.choice([7, 9, 11]), start=st)
+            parse_sql(t, dialect)
+        except Exception:
+            continue
+        out.append(('gram:' + st, t))
+    return out
+
+
 class Workload:
     def __init__(self, ctx, n_templates, n_mut, n_soup, n_noise=True, dialects=DIALECTS, max_nest=40, n_lexeme=0, n_gram=0, lexeme_extra=False):
         self.lexeme_extra = lexeme_extra
